@@ -288,6 +288,20 @@ base writer with the request's own OPT, after `SetEdns0` and a `stripECS`. -/
 def badversReplyOptions (p : Option Policy) (client : Option Addr) (opts : List Opt) : List Opt :=
   stripECS (setEdns0 p client opts)
 
+/-- the option filter of `Chain.CancelWithRcode`: of the request OPT's options only COOKIEs survive. -/
+def cookiesOnly (opts : List Opt) : List Opt := opts.filter (fun o => o.code == 10)
+
+/-- an rcode rejection written by a handler AHEAD of edns (ratelimit's BADCOOKIE,
+reflex's REFUSED, a plugin): through the chain's base writer, past the edns
+writer; `copts` = the options of the client's OPT (none: the client sent none). -/
+def rejectReplyAhead (copts : Option (List Opt)) : Option (List Opt) := copts.map cookiesOnly
+
+/-- the same rejection written BEHIND edns (BADVERS aside: recovery, cache's RD=0
+SERVFAIL, a plugin): the request OPT is what `SetEdns0` left (`fwd`), and the
+reply travels through the edns writer. -/
+def rejectReplyBehind (noedns : Bool) (fwd server : List Opt) (keepalive : Bool) : Option (List Opt) :=
+  replyOptions noedns (some (cookiesOnly fwd)) fwd server keepalive
+
 /-- `edns.hasClientECS` (the `MarkClientECS` trigger), `cache.hasEDNSClientSubnet`. -/
 def hasEcs (opts : Option (List Opt)) : Bool :=
   match opts with
